@@ -180,6 +180,9 @@ class CombinedDataHandler:
             .copy()
         )
         unexpected_units["unit_category"] = "unexpected"
+        # a row that carries no results yet counts no votes (a missing value would spread through the aggregate sums)
+        results_columns = [col for col in unexpected_units.columns if col.startswith("results_")]
+        unexpected_units[results_columns] = unexpected_units[results_columns].fillna(0)
 
         # since we were not expecting them, we have don't have their county or district
         # from preprocessed data. so we have to add that back in.
